@@ -429,6 +429,60 @@ example (r : Ret) (hr : r ∈ (run M .toHoomd sphere).2.rets) :
     (callerSetsCentroid M (run M .toHoomd sphere).1 ⟨1, 1, 1⟩).get r.id = (run M .toHoomd sphere).1.get r.id :=
   (to_hoomd_result_detached M lawful sphere sphere_inv (by simp [sphere]) r hr).2.1 _
 
+/-! ### why `Lawful` is needed: the mechanism of the floating-point drift -/
+
+/-- **Where `Polygon.to_hoomd` leaves the vertices, for ANY centroid getter**: displaced by
+`(0 − c₀) + (c₀ − c₁)` where `c₀` is the centroid read at the start and `c₁` the centroid the getter
+reports for the centred polygon. Over ℝ with an equivariant getter `c₁ = 0 + …` cancels
+(`query_preserves_observables`); in floating point `c₁` is the getter's rounding error and the shape
+is left displaced by it (known finding `…to_hoomd:drift-beyond-last-digit`). -/
+theorem polygon_to_hoomd_displacement (M : Meas ℝ) (s : St ℝ) (hw : Spec.WF s)
+    (hcls : s.cls = .polygon ∨ s.cls = .convexPolygon) :
+    (run M .toHoomd s).1.get s.fVerts =
+      shiftRows ((V3.zero - M.cen (s.get s.fVerts) (s.get s.fNormal)) +
+          (M.cen (s.get s.fVerts) (s.get s.fNormal) -
+            M.cen (shiftRows (V3.zero - M.cen (s.get s.fVerts) (s.get s.fNormal)) (s.get s.fVerts)) (s.get s.fNormal)))
+        (s.get s.fVerts) := by
+  have hk : s.cls.kind = .planar := by rcases hcls with h | h <;> rw [h] <;> rfl
+  have e : toHoomd M s = polygonToHoomd M s := by
+    unfold toHoomd; rcases hcls with h | h <;> rw [h]
+  have ho := congrArg Obs.verts (polygonToHoomd_observe M s hw hk)
+  have hv : (polygonToHoomd M s).1.fVerts = s.fVerts := (polygonToHoomd_frame M s).1.fVerts
+  show (toHoomd M s).1.get s.fVerts = _
+  rw [e]
+  have hl : (polygonToHoomd M s).1.get s.fVerts = (observe (polygonToHoomd M s).1).verts := by
+    show _ = (polygonToHoomd M s).1.get (polygonToHoomd M s).1.fVerts
+    rw [hv]
+  rw [hl, ho]
+  simp only [Spec.moved, Spec.centroidOf, hk]
+  rw [shiftRows_shiftRows]
+  rfl
+
+/-- a centroid "getter" that does not commute with translations: twice the first vertex -/
+noncomputable def C16.Ex.M2 : Meas ℝ :=
+  { C16.Ex.M with cen := fun vs _ => match vs with | x :: y :: z :: _ => ⟨2 * x, 2 * y, 2 * z⟩ | _ => V3.zero }
+
+open C16.Ex in
+/-- **Without an equivariant centroid getter the property fails**: with `M2` the rectangle comes back
+from `to_hoomd` displaced (first coordinate 10 ↦ 30). `Spec.Lawful` cannot be dropped from
+`query_preserves_observables`. -/
+theorem to_hoomd_without_equivariant_centroid_fails :
+    ¬ ∀ (M' : Meas ℝ) (s : St ℝ), Spec.Inv M' s → Spec.SameObservables s (run M' .toHoomd s).1 := by
+  intro h
+  have hI : Spec.Inv M2 polygon := ⟨polygon_inv.wf, by
+    refine ⟨fun _ => ?_, fun h => ?_, fun h => ?_, fun h => ?_, fun h => ?_, fun h => ?_, fun i h => ?_⟩
+    · simp [polygon, St.get, Heap.get]
+    all_goals simp [polygon, Cls.kind] at h⟩
+  have h1 := congrArg Obs.verts (h M2 polygon hI)
+  have h2 := polygon_to_hoomd_displacement M2 polygon polygon_inv.wf (Or.inl rfl)
+  have hv : (run M2 .toHoomd polygon).1.fVerts = polygon.fVerts :=
+    query_keeps_vertices_attached M2 .toHoomd polygon polygon_inv.wf
+  have h3 : (run M2 .toHoomd polygon).1.get polygon.fVerts = polygon.get polygon.fVerts := by
+    rw [← hv]; exact h1
+  rw [h2] at h3
+  simp [polygon, St.get, Heap.get, M2, M, shiftRows] at h3
+  norm_num at h3
+
 /-- the same rectangle as the core of a spheropolygon -/
 noncomputable def C16.Ex.spheropolygon : St ℝ := { C16.Ex.polygon with cls := .spheropolygon }
 
